@@ -243,7 +243,8 @@ inline Verdict expect_C07(const WSnap& pre, const CallInfo& ci) {
         std::vector<std::string> existing = alabels; for (auto& f : o.frames) for (auto& s : f.subs) for (auto& c : s) existing.push_back(c.name);
         bool fresh = true; for (auto& nm : chNames(fr[0])) if (has(existing, nm)) fresh = false;
         { bool sameAsStored = true; for (auto& f : fr) if (f.subs.size() != storedSub) sameAsStored = false;
-          if (n > 0 && storedUniform && storedSub >= 1 && sameAsStored) { bool nm = true; for (auto& f : fr) for (auto& sb : f.subs) { std::vector<std::string> nn; for (auto& c : sb) nn.push_back(c.name); if (nn != chNames(fr[0])) nm = false; }
+          bool storedDeclared = true; if (n > 0 && storedSub >= 1) { std::vector<std::string> sn; for (auto& c : o.frames[0].subs[0]) sn.push_back(c.name); storedDeclared = sn == alabels; }   // (channels put into a stored frame behind the object's back are not declared: the object is inconsistent by the caller's doing)
+          if (n > 0 && storedUniform && storedSub >= 1 && sameAsStored && storedDeclared) { bool nm = true; for (auto& f : fr) for (auto& sb : f.subs) { std::vector<std::string> nn; for (auto& c : sb) nn.push_back(c.name); if (nn != chNames(fr[0])) nm = false; }
               if (nm && fresh && !chNames(fr[0]).empty() && distinct(chNames(fr[0]))) { v.t = Verdict::MUST_ACCEPT; v.why = "channel column matching the stored sub-frames"; return v; } } }
         if (n > 0 && spf >= 1 && storedUniform && storedSub == spf && same && fresh && !chNames(fr[0]).empty() && distinct(chNames(fr[0]))) { v.t = Verdict::MUST_ACCEPT; v.why = "conforming channel column"; }
         return v;
@@ -284,7 +285,9 @@ inline bool regsSame(const WSnap& a, const WSnap& b) {
     for (int r = 0; r < 2; ++r) { if (a.regset[r] != b.regset[r]) return false; if (a.regset[r] && !a.reg[r].sameContent(b.reg[r])) return false; }
     return true;
 }
+inline std::string byNameTrouble(const WSnap& s) { for (size_t i = 0; i < s.o.frames.size(); ++i) if (!s.o.frames[i].byNameMismatch.empty()) return "stored frame " + S(i) + ": " + s.o.frames[i].byNameMismatch; for (int r = 0; r < 2; ++r) if (s.regset[r] && !s.reg[r].byNameMismatch.empty()) return "caller frame R" + S((size_t)r) + ": " + s.reg[r].byNameMismatch; return ""; }
 inline void tr_C08(const WSnap& pre, const CallInfo& ci, Outcome oc, const WSnap& post, const std::string& opcls, Sink& out) {
+    if (byNameTrouble(pre).empty() && !byNameTrouble(post).empty()) V(out, "C08", "by_name_view_differs_from_positions/" + opcls, byNameTrouble(post));
     bool callerSide = ci.kind == K_REG_BUILD || ci.kind == K_REG_MUT || ci.kind == K_REG_EXT;
     if (callerSide) {
         if (!pre.o.sameContent(post.o)) V(out, "C08", "caller_change_visible_in_object/" + opcls, "a change to the caller's own frame changed what the object stores");
